@@ -148,7 +148,8 @@ def check_random(ctx, case):
     with zoo.Zoo(kinds=('s3',), s3_prefixes=(prefix, 'other')) as z:
         cas, other = z.cassettes
         saved = []
-        for m, cat, x in sorted((m, names[c], x) for m, c, x in recs_):
+        # saved in the generated order, not chronologically: stored keys (random ids) carry no time order
+        for m, cat, x in [(m, names[c], x) for m, c, x in recs_]:
             t = BASE + dt.timedelta(minutes=m)
             saved.append((t, cat, x, save_at(cas, cat, t, {'x': x})))
             save_at(other, cat, t, {'x': x})
